@@ -225,12 +225,12 @@ def cli_callsite():
     p = os.path.join(tmp, "elast.dat")
     with open(p, "w") as fp:
         fp.write("title\n100.0 2 50.0\nV c11 c12\n10.0 1.0 2.0\n9.0 1.5 2.5\n\nrest\n")
-    fm.fill_cij = fake
+    from contracts.nonshear_env import patched
     try:
         from click.testing import CliRunner
-        res = CliRunner().invoke(cli.main, ["-s", "hexagonal", "--ignore-rank", "--drop-atol", "0.5", p])
+        with patched(fm, fill_cij=fake):
+            res = CliRunner().invoke(cli.main, ["-s", "hexagonal", "--ignore-rank", "--drop-atol", "0.5", p])
     finally:
-        fm.fill_cij = real
         shutil.rmtree(tmp, ignore_errors=True)
     want = {"system": "hexagonal", "ignore_residuals": False, "ignore_rank": True, "drop_atol": 0.5}
     if res.exit_code != 0 or seen.get("kw") != want or seen.get("cols") != ["V", "c11", "c12"]:
